@@ -2,13 +2,13 @@
 import histcheck
 
 PID = "C08"
-COMMON = ["hist", "-proj", "aggs", "-boundary", "-gov", "-jumps", "-valstatus", "-probe", "-bbias", "2", "-dbias", "1", "-maxops", "6"]
+COMMON = ["hist", "-proj", "aggs,dispute", "-boundary", "-gov", "-jumps", "-valstatus", "-probe", "-bbias", "2", "-dbias", "1", "-maxops", "6", "-stories", "50"]
 
 def run(tier, seed, replay):
     return histcheck.run(
         PID, tier, seed, replay, "AggHist_Trace",
         COMMON + ["-n", "30", "-blocks", "40"],
         COMMON + ["-n", "250", "-blocks", "60"],
-        "AggHist.tla: the history of a query as a chronological sequence; Extends (entries never altered or removed, flag only FALSE->TRUE), strictly increasing timestamps, sequence numbers increasing by one, flag only through a dispute/evidence naming the report that determined the aggregate; lookups Current / Before (strict, skipping flagged) / ByIndex (0-based) / TsBefore / TsAfter and snapshot neighbours as operators on the list. AggHist_MC checks their mutual consistency exhaustively on all histories of <= 4 entries over a 6-point time domain with any flags. After every block of the recorded histories the real getters are probed (timestamps before the first, between, equal to, after stored ones; indexes in/out of range) and the attestation snapshots created in that block are read; TLC compares every answer with the operator applied to the projected history.",
+        "AggHist.tla: the history of a query as a chronological sequence; Extends (entries never altered or removed, flag only FALSE->TRUE), strictly increasing timestamps, sequence numbers increasing by one, flag only through a dispute/evidence naming the report that determined the aggregate, and a funded dispute or accepted evidence about a determining report leaves its aggregate flagged; lookups Current / Before (strict, skipping flagged) / ByIndex (0-based) / TsBefore / TsAfter and snapshot neighbours as operators on the list. AggHist_MC checks their mutual consistency exhaustively on all histories of <= 4 entries over a 6-point time domain with any flags. After every block of the recorded histories the real getters are probed (timestamps before the first, between, equal to, after stored ones; indexes in/out of range) and the attestation snapshots created in that block are read; TLC compares every answer with the operator applied to the projected history.",
         ["withdrawal aggregates appear under their own query ids and are part of the projected history", "the gRPC GetDataBefore endpoint is a thin wrapper over GetAggregateBefore and is not called separately"],
         mc=[("AggHist_MC", "AggHist_MC.cfg", "AggHist_MC.cfg", 4)], nshards=12)
